@@ -25,7 +25,12 @@ RULE = ("circuits: trees (nesting depth <= 2) over m <= 4 spatial modes mixing W
         "directly or by SimulatorFactory) receives a history of set_circuit / probs / evolve calls -- all-H and "
         "un-annotated inputs, other polarisations, pairs, the vacuum, rejected inputs, repeats of earlier inputs, "
         "circuit replacements -- and every answer is compared with the model of the stateful simulator (proved "
-        "history-independent), a fresh simulator deciding the signature. Non-trivial: an elliptical photon (both components "
+        "history-independent), a fresh simulator deciding the signature; PROCESSOR histories: Processor(SLOS | Naive, "
+        "circuit[, noise]) with mutators before and AFTER with_polarized_input -- noise assigned (perfect NoiseModel, the "
+        "same object, None), min_detected_photons_filter (0 .. n+1), further components added, post-selection set / "
+        "cleared, the input replaced, intermediate probs() -- every probs() compared with the model of the processor's "
+        "configuration state (proved: the circuit as it is then, the input given last), the simulator-level result on "
+        "the same circuit and input deciding the signature. Non-trivial: an elliptical photon (both components "
         "non-zero, non-real phase) through a non-symmetric polarised matrix; distinct by (model tree, model input).")
 TRUSTED = ["model: coq/Model/Polar.v, PolarX.v over the exact field Q(i)(sqrt 2) (coq/Lib/Q2.v); amplitude specification "
            "= multiset permanent of C02 (Lib/Permanent.v) generalised to arbitrary columns (permC)",
@@ -750,6 +755,31 @@ def run(ctx):
             ctx.fail(sig, what, case, exp, obs)
     ctx.streams["sessions (one simulator, histories of set_circuit / probs / evolve)"] = len(sessions)
 
+    # ---------------------------------------------------------------- processor level: configuration histories
+    n_proc = ctx.n(60, 600)
+    hists = corpus_processor(labels)
+    for i in range(n_proc):
+        hists.append(rand_processor_history(rng.fork(("proc", i)), labels, nmax))
+    for hist in hists:
+        fails, info = run_processor(ctx, hist, labels)
+        ctx.case(["processor", info["canon"]], info["nontrivial"], one_sample("processor", info["nontrivial"], {"stream": "processor", "history": describe_processor(hist)}))
+        ctx.count("processor.probs", info["nprobs"])
+        for k, v in info["kinds"].items():
+            ctx.count("processor." + k, v)
+        for sig, what, exp, obs, idx in fails:
+            case = {"stream": "processor", "history": describe_processor(hist), "failing_step": idx}
+            if sig not in reported:
+                try:
+                    h2, f2 = shrink_processor(ctx, hist, labels, sig)
+                    if f2 is not None:
+                        what, exp, obs = f2[1], f2[2], f2[3]
+                        case = {"stream": "processor", "history": describe_processor(h2), "failing_step": f2[4], "shrunk": True}
+                except Exception as e:
+                    case["shrink_error"] = f"{type(e).__name__}: {e}"
+            reported.add(sig)
+            ctx.fail(sig, what, case, exp, obs)
+    ctx.streams["processor histories (mutators before / after with_polarized_input, then probs)"] = len(hists)
+
     # specification route (one column U.jones per photon, input norm = prod (class size)!) = implementation route
     souts = ctx.model.run([(F_SPEC, [t.model(), model_input(rows)]) for (t, rows), _ in spec_sample])
     for ((t, rows), out), so in zip(spec_sample, souts):
@@ -965,6 +995,248 @@ def corpus_sessions(labels):
     return out
 
 
+# ------------------------------------------------------------------ processor level
+def polarised_input(rng, m, labels, nmax):
+    """an accepted input with at least one P annotation (precondition of with_polarized_input)"""
+    for _ in range(20):
+        spec = rand_input(rng, m, labels, nmax, rng.choice(["single"] * 4 + ["pair"] * 2 + ["mixed"] * 2))
+        if any(p is not None and p != "tag" for md in spec.modes for p in md):
+            return spec
+    return InputSpec([[labels["V"]]] + [[] for _ in range(m - 1)])
+
+
+def rand_mutator(rng, m, n):
+    x = rng.below(12)
+    if x < 5:
+        return ("noise", rng.choice(["perfect", "perfect", "same", "none"]))
+    if x < 7:
+        return ("filter", rng.rint(0, n + 1))
+    if x < 9:
+        lf = rand_leaf(rng, m)
+        return ("add", rng.rint(0, m - lf.k), lf)
+    if x < 11:
+        k = rng.below(m)
+        return ("postselect", rng.choice([f"[{k}]==1", f"[{k}]>0", f"[{k}]<2", f"[{k}]==0"]))
+    return ("clear_postselect",)
+
+
+def rand_processor_history(rng, labels, nmax):
+    m = rng.rint(1, 3)
+    tree = rand_tree(rng, m, need_polar=True)
+    spec = polarised_input(rng, m, labels, nmax)
+    n = spec.n()
+    ops = [("ctor", rng.choice(["SLOS", "SLOS", "Naive"]), rng.choice([None, None, "perfect"]), tree)]
+    for _ in range(rng.below(3)):
+        ops.append(rand_mutator(rng, m, n))
+    ops.append(("input", spec))
+    for _ in range(rng.rint(1, 4)):
+        x = rng.below(10)
+        if x == 0:
+            spec = polarised_input(rng, m, labels, nmax)
+            n = spec.n()
+            ops.append(("input", spec))
+        elif x == 1:
+            ops.append(("probs",))
+        else:
+            ops.append(rand_mutator(rng, m, n))
+    ops.append(("probs",))
+    return ops
+
+
+def describe_processor(hist):
+    out = []
+    for o in hist:
+        if o[0] == "ctor":
+            out.append(f"p = Processor({o[1]!r}, {o[3].source()[:300]}" + (", noise=NoiseModel())" if o[2] else ")"))
+        elif o[0] == "input":
+            out.append(f"p.with_polarized_input(BasicState({o[1].string()!r}))")
+        elif o[0] == "noise":
+            out.append({"perfect": "p.noise = NoiseModel()", "same": "p.noise = p.noise", "none": "p.noise = None"}[o[1]])
+        elif o[0] == "filter":
+            out.append(f"p.min_detected_photons_filter({o[1]})")
+        elif o[0] == "add":
+            out.append(f"p.add({o[1]}, {o[2].source()[:200]})")
+        elif o[0] == "postselect":
+            out.append(f"p.set_postselection(PostSelect({o[1]!r}))")
+        elif o[0] == "clear_postselect":
+            out.append("p.clear_postselection()")
+        else:
+            out.append("p.probs()")
+    return out
+
+
+def run_processor(ctx, hist, labels):
+    """Phase 1: drive the real Processor through the history, recording every probs(); phase 2: the model on the
+    operations that were applied; phase 3: judge."""
+    import perceval as pcvl
+    from perceval import NoiseModel, PostSelect
+    from perceval.simulators import SimulatorFactory
+    ctor = hist[0]
+    tree = ctor[3]
+    m = tree.k
+    fails, kinds = [], {}
+
+    def count(k):
+        kinds[k] = kinds.get(k, 0) + 1
+
+    def post(dist, passes, ps):
+        """filter on the photon count, post-selection, renormalisation -- applied to a {state: p} dictionary"""
+        if not passes:
+            return {}
+        kept = {t: v for t, v in dist.items() if ps is None or ps(pcvl.BasicState(list(t)))}
+        tot = sum(kept.values())
+        if tot <= 1e-12:
+            return {}
+        return {t: v / tot for t, v in kept.items()}
+
+    try:
+        p = pcvl.Processor(ctor[1], build(tree.source()), noise=NoiseModel()) if ctor[2] else pcvl.Processor(ctor[1], build(tree.source()))
+    except Exception as e:
+        return [("processor:constructor-" + type(e).__name__, str(e), None, None, 0)], {"canon": "ctor", "nontrivial": False, "nprobs": 0, "kinds": {}}
+    items = list(tree.items)
+    req, observed = [], []         # observed: (step, index in req, result, snapshot)
+    cur, ps, filt, muts_after_input = None, None, None, 0
+    for idx, o in enumerate(hist[1:], 1):
+        try:
+            if o[0] == "input":
+                st = pcvl.BasicState(o[1].string())
+                cur = (st, read_back(st, o[1], labels))
+                p.with_polarized_input(st)
+                req.append([0, model_input(cur[1])])
+                muts_after_input = 0
+            elif o[0] == "noise":
+                p.noise = NoiseModel() if o[1] == "perfect" else (p.noise if o[1] == "same" else None)
+                req.append([1])
+                count("noise-after-input" if cur else "noise-before-input")
+                muts_after_input += 1 if cur else 0
+            elif o[0] == "filter":
+                p.min_detected_photons_filter(o[1])
+                filt = o[1]
+                req.append([3, o[1]])
+                muts_after_input += 1 if cur else 0
+            elif o[0] == "add":
+                try:
+                    p.add(o[1], build(o[2].source()))
+                except AssertionError as e:
+                    if "cannot compose" in str(e):       # documented: no component on the modes of a post-selection
+                        count("add-refused-by-postselection")
+                        continue
+                    raise
+                items.append((o[1], o[2]))
+                req.append([2, o[1], o[2].model()])
+                count("add-after-input" if cur else "add-before-input")
+                muts_after_input += 1 if cur else 0
+            elif o[0] == "postselect":
+                ps = PostSelect(o[1])
+                p.set_postselection(ps)
+                count("postselect")
+                muts_after_input += 1 if cur else 0
+            elif o[0] == "clear_postselect":
+                ps = None
+                p.clear_postselection()
+        except Exception as e:
+            fails.append(("processor:mutator-exception-" + o[0] + "-" + type(e).__name__, f"step {idx} ({o[0]}) raised {type(e).__name__}: {e}", None, None, idx))
+            break
+        if o[0] != "probs":
+            continue
+        if cur is None:
+            continue
+        if filt is None:
+            filt = cur[0].n          # probs() latches an unset filter to the photon number of the current input
+        try:
+            r = p.probs()
+            res = ("ok", {tuple(k): float(v) for k, v in r["results"].items()})
+        except Exception as e:
+            res = (type(e).__name__, str(e))
+        observed.append((idx, len(req), res, (cur, ps, filt, list(items), muts_after_input)))
+        req.append([4])
+    full = [m, [[off, nd.model()] for off, nd in tree.items], req]
+    outs = ctx.model.run([(1306, full)], jobs=1)[0] if observed else []
+    nontrivial = False
+    for idx, ri, res, (cur, ps, filt, its, nmut) in observed:
+        out = outs[ri]
+        if out[0] == 2:
+            if res[0] != "ValueError":
+                fails.append(("processor:bad-input-accepted", f"step {idx}: an input the model rejects was not rejected with ValueError", "ValueError", str(res[:2])[:200], idx))
+            continue
+        st, rows = cur
+        if nmut and any(pp.key != "H" for row in rows for pp in row):
+            nontrivial = True
+        pexp = post({tuple(e[0]): un_p2(e[1]) for e in out[2]}, bool(out[1]), ps)
+        if res[0] != "ok":
+            fails.append(("processor:probs-exception-" + res[0], f"step {idx}: probs() raised {res[0]}: {res[1]}", str({k: round(v, 6) for k, v in pexp.items() if v > 1e-9})[:300], res[0], idx))
+            continue
+        bad = sorted(t for t in set(res[1]) | set(pexp) if abs(res[1].get(t, 0.0) - pexp.get(t, 0.0)) > 1e-6)
+        if not bad:
+            continue
+        t = bad[0]
+        # the simulator-level answer for the same circuit and input, post-processed the same way, decides the signature
+        try:
+            circ = build(Node(m, None, None, items=its, kind="sub").source())
+            sim_d = post({tuple(k): float(v) for k, v in SimulatorFactory.build(circ).probs(st).items()}, filt <= st.n, ps)
+            sim_ok = all(abs(sim_d.get(u, 0.0) - pexp.get(u, 0.0)) <= 1e-6 for u in set(sim_d) | set(pexp))
+        except Exception:
+            sim_ok = False
+        sig = "processor:differs-from-simulator-level" if sim_ok else "processor:probs"
+        fails.append((sig, f"step {idx}: Processor.probs() differs from the specification of the polarised input" + (" while SimulatorFactory.build(circuit).probs(input) agrees with it" if sim_ok else ""),
+                      f"{list(t)}: {pexp.get(t, 0.0)}", f"{list(t)}: {res[1].get(t, 0.0)}", idx))
+    canon = sx(full) + str([o[1] for o in hist if o[0] == "postselect"])
+    return fails, {"canon": canon, "nontrivial": nontrivial, "nprobs": len(observed), "kinds": kinds}
+
+
+def shrink_processor(ctx, hist, labels, sig):
+    def has(h):
+        for f in run_processor(ctx, h, labels)[0]:
+            if f[0] == sig:
+                return f
+        return None
+    best = None
+    changed = True
+    while changed:
+        changed = False
+        for i in range(len(hist) - 2, 0, -1):           # never the constructor nor the final probs
+            if hist[i][0] == "input" and sum(1 for o in hist if o[0] == "input") == 1:
+                continue
+            h2 = hist[:i] + hist[i + 1:]
+            f = has(h2)
+            if f:
+                hist, best, changed = h2, f, True
+                break
+        if changed:
+            continue
+        tree = hist[0][3]
+        for i in range(len(tree.items)):
+            if len(tree.items) == 1:
+                break
+            t2 = Node(tree.k, None, None, items=tree.items[:i] + tree.items[i + 1:], kind="sub")
+            if not any(l.pol for l in t2.leaves()):
+                continue                     # the property is about circuits that contain a polarisation component
+            h2 = [(hist[0][0], hist[0][1], hist[0][2], t2)] + hist[1:]
+            f = has(h2)
+            if f:
+                hist, best, changed = h2, f, True
+                break
+    return hist, best
+
+
+def corpus_processor(labels):
+    a, b = Ang(3, 4, 5), Ang(5, 12, 13)
+    pbs = Node(2, [0, 4], "PBS()", True, kind="PBS")
+    wp = Node(1, [0, 2, q2(a.cos), q2(a.sin), q2(b.cos), q2(b.sin)], f"WP({a.value!r}, {b.value / 2!r})", True, kind="WP")
+    qwp = Node(1, [0, 2, RH, RH, q2(b.cos), q2(b.sin)], f"QWP({b.value / 2!r})", True, kind="QWP")
+    pr = Node(1, [0, 3, q2(a.cos), q2(a.sin)], f"PR({a.value!r})", True, kind="PR")
+    t = Node(2, None, None, items=[(0, wp), (0, pbs), (1, qwp)], kind="sub")
+    V, D, L = labels["V"], labels["D"], labels["L"]
+    i1, i2 = InputSpec([[V], [D]]), InputSpec([[L, L], []])
+    out = []
+    for be in ("SLOS", "Naive"):
+        out.append([("ctor", be, None, t), ("input", i1), ("noise", "perfect"), ("probs",)])
+        out.append([("ctor", be, "perfect", t), ("input", i1), ("probs",), ("noise", "none"), ("probs",), ("noise", "same"), ("probs",)])
+        out.append([("ctor", be, None, t), ("noise", "perfect"), ("input", i2), ("filter", 2), ("add", 0, pr), ("probs",), ("filter", 3), ("probs",)])
+        out.append([("ctor", be, None, t), ("input", i2), ("postselect", "[0]>0"), ("noise", "perfect"), ("probs",), ("clear_postselect",), ("probs",)])
+    return out
+
+
 # ------------------------------------------------------------------ shrinking
 def shrink_tree(tree: Node, spec, probe, sig):
     """Greedy: delete top-level items / photons while the same signature persists."""
@@ -979,8 +1251,8 @@ def shrink_tree(tree: Node, spec, probe, sig):
         changed = False
         for i in range(len(tree.items)):
             t2 = Node(tree.k, None, None, items=tree.items[:i] + tree.items[i + 1:], kind="sub")
-            if not t2.items and spec is not None:
-                continue
+            if spec is not None and not any(l.pol for l in t2.leaves()):
+                continue                     # simulations: keep a polarisation component in the circuit
             f = has(t2, spec)
             if f:
                 tree, best, changed = t2, f, True
